@@ -93,6 +93,8 @@ structure D where
 
 def step (d : D) : List String → D × String
   | ["reset"] => ({}, "ok")
+  | ["reset", "udp"] => ({}, "ok")      -- Protocol::UDP: after repair FC04b `connectSync` takes one path for every protocol
+  | ["reset", "tcp"] => ({}, "ok")
   | ["refuse", b] => match parseBit b with | some b => ({ d with refuse := b }, "ok") | none => (d, "bad-op")
   | ["connect", c, _t, win, tls] =>
     match c.toNat?, tls.toNat? with
